@@ -55,6 +55,8 @@ fn mix_tpl(which: usize) -> IpfixTpl {
     match which {
         0 => IpfixTpl { id: 256, fields: vec![fs(1, 4), fs(7, 2)] },
         1 => IpfixTpl { id: 257, fields: vec![fs(8, 4), fs(4, 1), fs(5, 1)] },
+        // same field count and record size as template 0, different fields
+        3 => IpfixTpl { id: 256, fields: vec![fs(7, 2), fs(2, 4)] },
         _ => IpfixTpl { id: 256, fields: vec![fs(2, 8), fs(82, 4)] },
     }
 }
@@ -76,7 +78,8 @@ fn mix_set(k: usize, pos: usize) -> IpfixSet {
         5 => IpfixSet::Data(258, mix_body(30 + pos, 0)[..8].to_vec()),
         6 => IpfixSet::Tpl(vec![mix_tpl(2)], 0),
         // data for an id nobody defines
-        _ => IpfixSet::Data(999, mix_body(40 + pos, 0)),
+        7 => IpfixSet::Data(999, mix_body(40 + pos, 0)),
+        _ => IpfixSet::Tpl(vec![mix_tpl(3)], 0),
     }
 }
 
@@ -197,14 +200,14 @@ pub fn streams(tier: &str) -> Vec<StreamGen> {
     // 5. set mixes: all sequences of <= 3 (thorough 4) sets over an 8-set menu x prior context
     {
         let maxlen = if thorough { 4 } else { 3 };
-        let nl = list_count(8, maxlen);
+        let nl = list_count(9, maxlen);
         let mk = move |i: u64| -> Vec<Vec<u8>> {
             let d = digits(i, &[nl, 2]);
-            let seq = list_at(8, maxlen, d[0]);
+            let seq = list_at(9, maxlen, d[0]);
             let sets: Vec<IpfixSet> = seq.iter().enumerate().map(|(pos, k)| mix_set(*k, pos)).collect();
             let mut calls = vec![];
             if d[1] == 1 {
-                calls.push(ipfix_message(&IpfixMsg::new(vec![IpfixSet::Tpl(vec![mix_tpl(2)], 0), IpfixSet::Tpl(vec![mix_tpl(1)], 0), IpfixSet::OptTpl(vec![mix_opt()], 0)])));
+                calls.push(ipfix_message(&IpfixMsg::new(vec![IpfixSet::Tpl(vec![mix_tpl(0)], 0), IpfixSet::Tpl(vec![mix_tpl(1)], 0), IpfixSet::OptTpl(vec![mix_opt()], 0)])));
             }
             calls.push(ipfix_message(&IpfixMsg::new(sets)));
             calls
